@@ -288,6 +288,12 @@ impl Driver {
         self.collect(true).pop().unwrap_or_default()
     }
 
+    pub fn decode_model(&mut self, cmd: &str) -> String {
+        self.send(cmd);
+        let _ = self.stdin.flush();
+        self.collect(true).pop().unwrap_or_default()
+    }
+
     pub fn declared(&mut self, b: &[u8]) -> Option<String> {
         self.send(&format!("DECL {}", hex(b)));
         let _ = self.stdin.flush();
